@@ -348,7 +348,8 @@ theorem splitObs_same {d : DS α} {no nc nt : Nat} (h : d.WF no nc nt) {by_ : St
 
 theorem oddEven_same {d : DS α} {no nc nt : Nat} (h : d.WF no nc nt) {by_ : String}
     {a b : DS α} (hp : oddEven by_ d = some (a, b)) : Same d nc nt a ∧ Same d nc nt b := by
-  unfold oddEven at hp
+  rw [oddEven_eq_ref] at hp
+  unfold oddEvenRef at hp
   cases hparts : splitObs by_ d with
   | none => simp [hparts] at hp
   | some parts =>
@@ -716,6 +717,42 @@ theorem uniqueFirst_singleton {β : Type} [DecidableEq β] {l : List β} {x : β
   rw [h] at this
   simpa using this
 
+/-- the constancy test of `from_df` (through the generated leaf) -/
+theorem isConstCol_iff {c : Col} : isConstCol c = true ↔ (uniqueFirst c).length = 1 := by
+  unfold isConstCol
+  rw [fromDfIsConst_eq]
+  simp
+
+/-- a constant column holds its row-0 value everywhere -/
+theorem isConstCol_all {c : Col} (hc : isConstCol c = true) {x : Lbl} (hx : c[0]? = some x) :
+    ∀ y ∈ c, y = x := by
+  have hlen := isConstCol_iff.1 hc
+  cases c with
+  | nil => simp at hx
+  | cons x0 xs =>
+    have : x0 = x := by simpa using hx
+    subst this
+    intro y hy
+    rcases List.mem_cons.1 hy with rfl | hy
+    · rfl
+    · exact (uniqueFirst_cons_length_one.1 hlen) y hy
+
+theorem dfFrame_cases {d : DS α} {no nc nt : Nat} (h : d.WF no nc nt) :
+    ∀ kc ∈ dfFrame d, kc ∈ d.obs ∨ ∃ v, (kc.1, v) ∈ d.desc ∧ kc.2 = List.replicate no v := by
+  intro kc hkc
+  unfold dfFrame Tbl.update at hkc
+  rcases List.mem_append.1 hkc with hkc | hkc
+  · exact Or.inl (Tbl.minus_sub _ hkc)
+  · obtain ⟨kv, hkv, rfl⟩ := List.mem_map.1 hkc
+    exact Or.inr ⟨kv.2, hkv, by rw [h.obsLen]⟩
+
+theorem dfFrame_len {d : DS α} {no nc nt : Nat} (h : d.WF no nc nt) :
+    ∀ kc ∈ dfFrame d, kc.2.length = no := by
+  intro kc hkc
+  rcases dfFrame_cases h kc hkc with hk | ⟨v, _, hk⟩
+  · exact h.obsT kc hk
+  · rw [hk]; simp
+
 theorem dfRoundTrip_derives {d d' : DS α} (hw : WFex d) {key : String}
     (hd' : dfRoundTrip key d = some d') : Derives [d] d' := by
   obtain ⟨no, nc, nt, h⟩ := hw
@@ -724,20 +761,8 @@ theorem dfRoundTrip_derives {d d' : DS α} (hw : WFex d) {key : String}
   | none => simp [hn] at hd'
   | some names =>
     simp only [hn, Option.some.injEq] at hd'
-    have hall : ∀ kc ∈ Tbl.update d.obs (d.desc.map (fun kv => (kv.1, List.replicate d.meas.length kv.2))),
-        kc ∈ d.obs ∨ ∃ v, (kc.1, v) ∈ d.desc ∧ kc.2 = List.replicate no v := by
-      intro kc hkc
-      unfold Tbl.update at hkc
-      rcases List.mem_append.1 hkc with hkc | hkc
-      · exact Or.inl (Tbl.minus_sub _ hkc)
-      · obtain ⟨kv, hkv, rfl⟩ := List.mem_map.1 hkc
-        exact Or.inr ⟨kv.2, hkv, by rw [h.obsLen]⟩
-    have halllen : ∀ kc ∈ Tbl.update d.obs (d.desc.map (fun kv => (kv.1, List.replicate d.meas.length kv.2))),
-        kc.2.length = no := by
-      intro kc hkc
-      rcases hall kc hkc with hk | ⟨v, _, hk⟩
-      · exact h.obsT kc hk
-      · rw [hk]; simp
+    have hall := dfFrame_cases h
+    have halllen := dfFrame_len h
     subst hd'
     constructor
     · refine ⟨no, nc, nt, ⟨h.obsLen, h.chanLen, h.timeLen, ?_, ?_, h.timeT⟩⟩
@@ -773,25 +798,25 @@ theorem dfRoundTrip_derives {d d' : DS α} (hw : WFex d) {key : String}
         exact Or.inr (Or.inl (Tbl.mem_row.2 ⟨names, col_mem hn, hx⟩))
       · exact Or.inr (Or.inr (Or.inl hpr))
       · obtain ⟨kc, hkc, hkx⟩ := List.mem_filterMap.1 hpr
-        cases hu : uniqueFirst kc.2 with
-        | nil => simp [hu] at hkx
-        | cons x rest =>
-          cases rest with
-          | cons y ys => simp [hu] at hkx
-          | nil =>
-            simp only [hu, Option.some.injEq] at hkx
+        by_cases hconst : isConstCol kc.2 = true
+        · simp only [hconst, if_true] at hkx
+          cases h0 : kc.2[0]? with
+          | none => simp [h0] at hkx
+          | some x =>
+            simp only [h0, Option.map_some, Option.some.injEq] at hkx
             subst hkx
             have hlen := halllen kc hkc
             have hxi : kc.2[i]? = some x := by
               have hlt : i < kc.2.length := by omega
               rw [List.getElem?_eq_getElem hlt]
-              exact congrArg some (uniqueFirst_singleton hu _ (List.getElem_mem hlt))
+              exact congrArg some (isConstCol_all hconst h0 _ (List.getElem_mem hlt))
             rcases hall kc hkc with hk | ⟨v', hv', hk⟩
             · exact Or.inl (Tbl.mem_row.2 ⟨kc.2, hk, hxi⟩)
             · rw [hk] at hxi
               have : x = v' := (List.mem_replicate.1 (List.mem_of_getElem? hxi)).2
               subst this
               exact Or.inr (Or.inr (Or.inr hv'))
+        · simp [hconst] at hkx
 
 
 /-! ### one step of a session -/
@@ -1013,13 +1038,31 @@ theorem applyOp_derives [Add α] [Zero α] [Div α] [NatCast α] {ws ws' : List 
     | none => simp [hd] at h
     | some d =>
       simp only [hd, Option.bind_some] at h
-      cases hp : dfRoundTrip key d with
-      | none => simp [hp] at h
-      | some d' =>
-        simp only [hp, Option.map_some, Option.some.injEq] at h
-        subst h
-        exact replace_derives hw hd (fun x hx => by
-          have : x = d' := by simpa using hx
-          rw [this]; exact dfRoundTrip_derives (hw d (List.mem_of_getElem? hd)) hp)
+      split at h
+      · cases hp : dfRoundTrip key d with
+        | none => simp [hp] at h
+        | some d' =>
+          simp only [hp, Option.map_some, Option.some.injEq] at h
+          subst h
+          exact replace_derives hw hd (fun x hx => by
+            have : x = d' := by simpa using hx
+            rw [this]; exact dfRoundTrip_derives (hw d (List.mem_of_getElem? hd)) hp)
+      · simp at h
+  | dfDefault i key =>
+    simp only [applyOp] at h
+    cases hd : ws[i]? with
+    | none => simp [hd] at h
+    | some d =>
+      simp only [hd, Option.bind_some] at h
+      split at h
+      · cases hp : dfRoundTrip key d with
+        | none => simp [hp] at h
+        | some d' =>
+          simp only [hp, Option.map_some, Option.some.injEq] at h
+          subst h
+          exact replace_derives hw hd (fun x hx => by
+            have : x = d' := by simpa using hx
+            rw [this]; exact dfRoundTrip_derives (hw d (List.mem_of_getElem? hd)) hp)
+      · simp at h
 
 end Rsa.Lemmas.C11
